@@ -82,6 +82,8 @@ type Net struct {
 	OnEvent func(n *Net, ev *Event, d *Delivery)
 	// UseParsed delivers the ParsedMessage object instead of re-parsing wire bytes
 	Panics []string
+	// Delivered logs every delivery made (for transcript re-judgement)
+	Delivered []*Delivery
 }
 
 func shortType(t string) string {
@@ -210,6 +212,7 @@ func (n *Net) Deliver(k int, keep bool) {
 	if !keep {
 		n.Pending = append(n.Pending[:k], n.Pending[k+1:]...)
 	}
+	n.Delivered = append(n.Delivered, d)
 	nd := n.Nodes[d.To]
 	ev := Event{Kind: "deliver", Node: nd.Name, From: n.Nodes[d.From].Name, Type: shortType(d.Msg.Type()), Bcast: d.Bcast}
 	func() {
